@@ -34,6 +34,21 @@ def build_harness(profile="dev"):
         raise ToolError("harness build failed (the tree under /repo does not compile with hooks on)")
 
 
+def build_naija(release=False):
+    """Builds the shipped `naija` binary from /repo's current working tree (no hooks) into
+    /verif/work/target-naija and returns its path."""
+    tdir = os.path.join(VERIF, "work", "target-naija")
+    os.makedirs(tdir, exist_ok=True)
+    cmd = ["cargo", "build", "--quiet", "--offline", "--manifest-path", "/repo/Cargo.toml", "--bin", "naija", "--target-dir", tdir]
+    if release:
+        cmd.append("--release")
+    p = subprocess.run(cmd, capture_output=True, text=True, cwd="/repo")      # cwd selects /repo's toolchain file
+    if p.returncode != 0:
+        sys.stderr.write(p.stderr[-4000:])
+        raise ToolError("building naija failed")
+    return os.path.join(tdir, "release" if release else "debug", "naija")
+
+
 def load_known():
     """known_findings.txt: `finding: property=<id> key=<key> <what fails>` / `fixed: property=<id> <commit> <what>`."""
     out = {}
